@@ -68,8 +68,9 @@ pub fn node_strategy() -> impl Strategy<Value = NodeCase> {
         0u8..5,
     )
         .prop_map(|(conns, mut rest, bursts, batch, backend_timeout_ms, shapes, pad, flush)| {
-            // the tail plan must eventually let traffic through, or nothing is learned
-            rest.refuse = false;
+            // the tail plan mostly lets traffic through (or little is learned); in the remaining cases the
+            // backend stays down for good after the scripted connections: every request must still be failed
+            rest.refuse = rest.refuse && bursts.len() % 2 == 1;
             rest.read_stall_after = None;
             NodeCase { script: Script { conns, rest, shapes }, bursts, batch, backend_timeout_ms, pad, flush }
         })
@@ -565,6 +566,11 @@ pub fn enumerated_cases() -> Vec<NodeCase> {
                             conns.extend(second);
                             v.push(NodeCase { script: Script { conns, rest: clean.clone(), shapes: 0 }, bursts: bursts.clone(), batch, backend_timeout_ms: 500, pad: 0, flush: 0 });
                         }
+                        // the backend goes down for good after the cut: nothing may stay unanswered
+                        if coalesce == 1 {
+                            let down = ConnPlan { refuse: true, ..Default::default() };
+                            v.push(NodeCase { script: Script { conns: vec![first.clone()], rest: down, shapes: 0 }, bursts: bursts.clone(), batch, backend_timeout_ms: 500, pad: 0, flush: 0 });
+                        }
                     }
                 }
             }
@@ -573,7 +579,7 @@ pub fn enumerated_cases() -> Vec<NodeCase> {
     v
 }
 
-pub const RULE_ENUM: &str = "[enumerated] fixed pipelines (6 requests in one burst; 4+4 in two bursts) x every cut position of the first connection's reply byte stream (0..=total bytes) and every cut-after-request count x {disabled, fixed, dynamic} batching x 3 fragmentations x 2 coalescing factors x second connection {clean, refused once, cut again at 3 positions, cut on 5 consecutive connections}; same oracle as backend-node; exhaustive over this grid";
+pub const RULE_ENUM: &str = "[enumerated] fixed pipelines (6 requests in one burst; 4+4 in two bursts) x every cut position of the first connection's reply byte stream (0..=total bytes) and every cut-after-request count x {disabled, fixed, dynamic} batching x 3 fragmentations x 2 coalescing factors x second connection {clean, refused once, cut again at 3 positions, cut on 5 consecutive connections, backend down for good}; same oracle as backend-node; exhaustive over this grid";
 
 pub const RULE_NODE: &str = "[backend-node] the real BackendNode/handle_backend with the real ReplyCommitHandler and real CmdCtx tasks over a scripted backend behind the ConnFactory seam (real RespCodec over an in-memory duplex byte stream): pipelines of up to ~60 requests with unique ids in generated bursts; per connection a generated plan: refuse, reply latency, byte-level fragmentation of the reply stream, coalescing of several replies into one write, stall after n requests (backend_timeout 50/500/3000 ms), cut after byte n of the reply stream / after request m, then the next connection's plan; batching in {disabled, fixed, dynamic} with 5 settings of flush size (1..64) and flush intervals (20 us..20 ms); oracle: every request resolves exactly once within bounded virtual time, a successful reply carries the request's own id, otherwise an error; the backend sees a request at most 4 times; non-trivial = a cut strictly inside the reply stream with requests on both sides, or fragmentation inside a packet";
 pub const RULE_SESSION: &str = "[session] the full stack over loopback TCP: real handle_session -> Session -> ForwardHandler -> scripted backend (backend_conn_num 1..3); pipelined requests (backend GETs interleaved with locally answered PING/ECHO) written in generated fragments; oracle: reply k answers request k (own key / own echo / OK / an error for a failed backend exchange), counts equal; half of the cases run with a session_timeout of 2..4 s and a client that is silent for 0..30 ms after connecting: the connection must not be closed before the client has been silent for a full timeout (believed only after three failing attempts, real time); a quarter of the cases use a LAZY READER: small socket buffers, 9 KiB backend replies, the client pipelines everything and starts reading 150 ms later (the proxy's writes hit back-pressure); non-trivial = a cut or fragmentation";
